@@ -47,6 +47,11 @@ def _jobs(tier):
         if tier == "quick" and proc == "NC" and pto == 3 and nf in (3, 4):
             continue
         jobs.append(("flavour", dict(obs=f"{kind}_total", process=proc, fns="ZM-VFNS", nfff=4, nf=nf, pto=pto, ren_sv=(pto == 1), fact_sv=(pto == 1))))
+    # flavour-tagged observables of massless quarks: the *other* active quarks of equal charge are still interchangeable
+    for kind, (fl, hq), proc, nf, pto in itertools.product(["F2", "F3"] if tier == "quick" else kinds, [("charm", 4), ("bottom", 5)], ["EM", "NC"], [5, 6], [2, 3]):
+        if tier == "quick" and ((proc == "EM" and kind == "F3") or (nf == 6 and pto == 3)):
+            continue
+        jobs.append(("flavour", dict(obs=f"{kind}_{fl}", process=proc, fns="ZM-VFNS", nfff=4, nf=nf, pto=pto, ren_sv=False, fact_sv=False, tagged=hq)))
     return jobs
 
 
@@ -105,9 +110,10 @@ def _run(job):
                     bad.append((key, pid, j, O.diff_text(x, y)))
             what = f"{b_name}[p] == {'-' if sgn < 0 else '+'}{a_name}[pbar]"
         elif kind == "flavour":
+            tagged = kw.pop("tagged", None)
             op = O.fold_op(proj, R.Cell(**kw), weights="full")
             nf = kw["nf"]
-            pairs = [(1, 3), (1, 5), (3, 5), (2, 4), (2, 6), (4, 6)]
+            pairs = [p_ for p_ in [(1, 3), (1, 5), (3, 5), (2, 4), (2, 6), (4, 6)] if tagged not in p_]
             for key, _, j in ((k_, 0, j_) for k_ in sorted(op.keys()) for j_ in range(2)):
                 for q1, q2 in pairs:
                     if q2 > nf:
